@@ -122,15 +122,22 @@ func (r *Run) Fork(n int) bool {
 		}(i)
 	}
 	wg.Wait()
+	failed := ""
 	for i, err := range errs {
 		if err != nil {
-			Fatal("worker %d failed: %v", i, err)
+			failed += fmt.Sprintf(" worker %d failed: %v;", i, err)
 		}
 	}
 	for i := 0; i < n; i++ {
+		if errs[i] != nil {
+			if ee, ok := errs[i].(*exec.ExitError); !ok || ee.ExitCode() != 3 {
+				continue
+			}
+		}
 		b, err := os.ReadFile(outs[i])
 		if err != nil {
-			Fatal("worker %d left no result: %v", i, err)
+			failed += fmt.Sprintf(" worker %d left no result: %v;", i, err)
+			continue
 		}
 		var p partial
 		if err := json.Unmarshal(b, &p); err != nil {
@@ -139,6 +146,11 @@ func (r *Run) Fork(n int) bool {
 		r.merge(&p)
 	}
 	r.Set("worker_processes", n)
+	if failed != "" {
+		// an internal error unless the other workers found violations (those are printed and decide the exit status)
+		r.Set("exhaustive", false)
+		r.internalError = failed
+	}
 	return true
 }
 
@@ -200,6 +212,10 @@ func (r *Run) finishWorker() {
 	}
 	if err := os.WriteFile(r.workerOut, b, 0o644); err != nil {
 		Fatal("write partial: %v", err)
+	}
+	if r.internalError != "" {
+		fmt.Fprintf(os.Stderr, "internal error in worker: %s\n", r.internalError)
+		os.Exit(3) // the partial result (with any violations) has been written
 	}
 	os.Exit(0)
 }
